@@ -73,7 +73,9 @@ def record(ctx, tree, op, now):
     root = ctx.root
     sub.materialise(root, tree)
     log = []
-    ropen, rmkdir, rreplace, rrename, rremove = builtins.open, os.mkdir, os.replace, os.rename, os.remove
+    ropen, rmkdir, rreplace, rrename, rremove, runlink = builtins.open, os.mkdir, os.replace, os.rename, os.remove, os.unlink
+    import shutil
+    fast = getattr(shutil, "_USE_CP_SENDFILE", None)   # file copies go through read / write (and so through the log)
 
     def rel(p):
         p = os.path.abspath(os.fspath(p))
@@ -107,7 +109,11 @@ def record(ctx, tree, op, now):
         return res
 
     def lrename(a, b, *x, **k):
-        res = rrename(a, b, *x, **k)
+        try:
+            res = rrename(a, b, *x, **k)
+        except OSError:
+            log.append(("rename-failed", os.fspath(a), os.fspath(b)))
+            raise
         if rel(a) is not None or rel(b) is not None:
             log.append(("replace", rel(a), rel(b)))
         return res
@@ -120,17 +126,35 @@ def record(ctx, tree, op, now):
 
     name, args = ops.to_args(op)
     args = ops.expand_args(args, root)
-    builtins.open, os.mkdir, os.replace, os.rename, os.remove = lopen, lmkdir, lreplace, lrename, lremove
+    def lunlink(p, *a, **k):
+        res = runlink(p, *a, **k)
+        if rel(p) is not None:
+            log.append(("remove", rel(p)))
+        return res
+
+    builtins.open, os.mkdir, os.replace, os.rename, os.remove, os.unlink = lopen, lmkdir, lreplace, lrename, lremove, lunlink
+    if fast is not None:
+        shutil._USE_CP_SENDFILE = False
     sub.AUDIT.update(on=True, events=[], opens=[], prefix=root)
     try:
         res = sub.run_inproc(name, args, now=now)
     finally:
         sub.AUDIT["on"] = False
-        builtins.open, os.mkdir, os.replace, os.rename, os.remove = ropen, rmkdir, rreplace, rrename, rremove
+        builtins.open, os.mkdir, os.replace, os.rename, os.remove, os.unlink = ropen, rmkdir, rreplace, rrename, rremove, runlink
+        if fast is not None:
+            shutil._USE_CP_SENDFILE = fast
     final = sub.readback(root)
     # cross-check: every write-type audit event has its logged twin (same kind, same path, same order per kind)
     aud = []
+    failed_renames = [o for o in log if o[0] == "rename-failed"]
     for ev in sub.AUDIT["events"]:
+        if ev[0].startswith("shutil.") or ev[0] in ("os.utime", "os.chmod"):
+            continue   # composite operations (their parts are logged one by one) and metadata that the tree model does not carry
+        if ev[0] in ("os.rename", "os.replace") and failed_renames and (ev[1], ev[2]) == failed_renames[0][1:3]:
+            failed_renames.pop(0)   # (the hook sees the attempt; nothing changed on disk)
+            continue
+        if all(rel(a) is None for a in ev[1:3]):
+            continue   # entirely outside the tree (a temporary file elsewhere)
         k = {"open_w": "open", "os.mkdir": "mkdir", "os.replace": "replace", "os.rename": "replace", "os.remove": "remove"}.get(ev[0])
         if k is None:
             raise HarnessError(f"crash seam: unlogged kind of file-system operation {ev}")
